@@ -315,7 +315,9 @@ fn canon_edges(directed: bool, v: &[EdgeT]) -> Vec<EdgeT> {
 pub enum Flavor {
     Normal,
     /// `UndirectedAdaptor`: chains the incoming and the outgoing list, so a self-loop may be
-    /// listed once or twice, and edges keep the orientation they have in the base graph.
+    /// listed once or twice; `edges(a)` reports `a` as the source like every undirected graph
+    /// (it did not before the repair eae3c94 in /repo), `edge_references()` keeps the base
+    /// orientation.
     Symmetrised,
 }
 
@@ -425,6 +427,8 @@ pub fn check_view(view: &str, o: &RawObs, t: &Truth, flavor: Flavor, ground_ids:
                     ensure!("edges", sorted(&got_non) == sorted(&exp_non), "edges({}) = {:?}, symmetrised graph implies {:?}", a, v, inc);
                     let got_loops = v.iter().filter(|e| e.1 == e.2).count();
                     ensure!("edges_loops", got_loops >= loops && got_loops <= 2 * loops, "edges({}) lists {} self-loop entries for {} self-loop(s)", a, got_loops, loops);
+                    // the convention of every undirected graph: the queried node is the source
+                    ensure!("edges_orientation", v.iter().all(|e| e.1 == a), "edges({}) = {:?}: an undirected view reports every incident edge with the queried node as source", a, v);
                 }
             }
         }
@@ -564,6 +568,23 @@ macro_rules! visit_battery_directed {
             let und_rev = UndirectedAdaptor(Reversed(g));
             let v = $crate::view!(und_rev; &ids, &nk, &ek; nodes, out, outw, vmap, index, ncount, prop);
             check_view("UndirectedAdaptor(Reversed)", &v, &t_und, Flavor::Symmetrised, &keys)?;
+        }
+        // filters stacked on UndirectedAdaptor (directed bases)
+        if truth.directed {
+            let s1u = mix(seed, 21);
+            let nf_und = NodeFiltered::from_fn(UndirectedAdaptor(g), |n| node_keep(s1u, nk(n)));
+            let r = &nf_und;
+            let v = $crate::view!(r; &ids, &nk, &ek; nodes, noderefs, out, outw, vmap, index, prop);
+            let mut t = truth.node_filtered(&|k| node_keep(s1u, k)).symmetrised();
+            t.directed = false;
+            check_view("NodeFiltered(UndirectedAdaptor)", &v, &t, Flavor::Symmetrised, &keys)?;
+            let s2u = mix(seed, 22);
+            let ef_und = EdgeFiltered::from_fn(UndirectedAdaptor(g), |e| edge_keep(s2u, ek(e.id())));
+            let r = &ef_und;
+            let v = $crate::view!(r; &ids, &nk, &ek; nodes, noderefs, out, outw, vmap, index, prop);
+            let mut t = truth.edge_filtered(&|e| edge_keep(s2u, e.0)).symmetrised();
+            t.directed = false;
+            check_view("EdgeFiltered(UndirectedAdaptor)", &v, &t, Flavor::Symmetrised, &keys)?;
         }
         // NodeFiltered
         let s1 = mix(seed, 1);
